@@ -1,0 +1,76 @@
+//! C13 helper (child of `transport::manager`): lets the request-response adapter script the
+//! transport manager's view of a peer (the shared peer-state map read by
+//! `TransportManagerHandle::dial`), whose types are private to this module, independently of what
+//! the protocol has been told about the peer.
+
+use super::{
+    address::AddressStore,
+    peer_state::{ConnectionRecord, PeerState},
+    types::PeerContext,
+    SupportedTransport,
+};
+use crate::{types::ConnectionId, PeerId};
+
+use multiaddr::Multiaddr;
+use parking_lot::RwLock;
+
+use std::{
+    collections::{HashMap, HashSet},
+    sync::Arc,
+};
+
+/// The map shared between `TransportManager` and its handles.
+pub type Peers = Arc<RwLock<HashMap<PeerId, PeerContext>>>;
+
+/// Empty peer map.
+pub fn new_peers() -> Peers {
+    Arc::new(RwLock::new(HashMap::new()))
+}
+
+/// Force the manager's view of `peer`. Returns `false` if `view` is not a view.
+///
+/// * `unknown`: the manager has never heard of the peer;
+/// * `noaddr`: known, disconnected, every address has been forgotten;
+/// * `disconnected`: known with a dialable address, nothing in progress;
+/// * `redial`: disconnected with a dial record still pending;
+/// * `dialing` / `opening`: a dial is in progress;
+/// * `connected`.
+pub fn set_view(peers: &Peers, peer: PeerId, address: Multiaddr, view: &str) -> bool {
+    let record = || ConnectionRecord::new(peer, address.clone(), ConnectionId::from(0usize));
+    let mut peers = peers.write();
+    let state = match view {
+        "unknown" => {
+            peers.remove(&peer);
+            return true;
+        }
+        "noaddr" => {
+            let context = peers.entry(peer).or_default();
+            context.addresses = AddressStore::new();
+            context.state = PeerState::Disconnected { dial_record: None };
+            return true;
+        }
+        "disconnected" => PeerState::Disconnected { dial_record: None },
+        "redial" => PeerState::Disconnected {
+            dial_record: Some(record()),
+        },
+        "dialing" => PeerState::Dialing {
+            dial_record: record(),
+        },
+        "opening" => PeerState::Opening {
+            addresses: HashSet::from_iter([address.clone()]),
+            connection_id: ConnectionId::from(0usize),
+            transports: HashSet::from_iter([SupportedTransport::Tcp]),
+        },
+        "connected" => PeerState::Connected {
+            record: record(),
+            secondary: None,
+        },
+        _ => return false,
+    };
+    let context = peers.entry(peer).or_default();
+    if context.addresses.is_empty() {
+        context.addresses = std::iter::once(address).collect();
+    }
+    context.state = state;
+    true
+}
